@@ -12,7 +12,7 @@ Proof. intros H. inversion H; subst; unfold curc; cbn; rewrite ?H0; reflexivity.
 Section PollProof.
 Variable reopen : bool.
 Variable pre : bytes.
-Notation pstep := (pstep reopen).
+Notation pstep := (pstep reopen true).
 
 Record PInv (s : pstate) : Prop := mkPInv {
   qV : valid_fd (penv s) (pfd s);
@@ -78,6 +78,15 @@ Proof.
   - intros He. destruct (E He) as [E1 E2]. split; [exact E1|]. rewrite Pa. intros X. apply app_eq_nil in X as [X _]. auto.
 Qed.
 
+(* plain follow: what the Stat branch reports as "gone or replaced" implies that a file was removed *)
+Lemma gone_removed rp s : PInv s -> reopen = false -> plain_sees rp (penv s) (pfd s) = false -> past (penv s) <> [].
+Proof.
+  intros I Hr Hg. destruct rp; cbn in Hg; [|apply (qM _ I Hr Hg)].
+  destruct (pfd s) as [[i off]|] eqn:F; cbn in Hg; [|apply (qM _ I Hr Hg)].
+  pose proof (qV _ I) as V. rewrite F in V. pose proof (not_current_old _ _ _ V Hg) as L.
+  intros X. rewrite X in L. cbn in L. lia.
+Qed.
+
 Lemma pinv_step s l s' : PInv s -> pok pre s l -> pstep s l s' -> PInv s'.
 Proof.
   intros I Ok St. inversion St; subst.
@@ -127,7 +136,8 @@ Proof.
       * intros i off F. destruct (present (penv s)); inversion F; subst i off.
         unfold ino. rewrite firstn_all. cbn. rewrite app_nil_r. exact Q2.
   - destruct I as [V O P N G Q M E]. constructor; cbn [penv pfd ppcs rb pdel]; auto; try congruence.
-  - destruct I as [V O P N G Q M E]. constructor; cbn [penv pfd ppcs rb pdel]; auto; try congruence.
+  - pose proof (gone_removed _ _ I H0 H1) as Rm.
+    destruct I as [V O P N G Q M E]. constructor; cbn [penv pfd ppcs rb pdel]; auto; try congruence.
   - exact I.
 Qed.
 End PollProof.
@@ -142,7 +152,7 @@ Variable c0 : option bytes.
 Variable tail : bool.
 Hypothesis new_ok : c0 = None -> reopen = true.      (* followreader.New fails otherwise *)
 Let pre := pre_of c0 tail.
-Notation pstep := (pstep reopen).
+Notation pstep := (pstep reopen true).
 Notation PInv := (PInv reopen pre).
 Notation prun := (run pstep (pok pre) (pinit c0 tail)).
 
@@ -185,7 +195,7 @@ Proof.
   - rewrite H. cbn. destruct (rb s <=? sz); reflexivity.
   - rewrite H. reflexivity.
   - rewrite H. cbn [spec_step sEnded sDl sE sRemoved negb andb].
-    rewrite removed_b_true; [reflexivity|]. apply (qM _ _ _ I); auto.
+    rewrite removed_b_true; [reflexivity|]. eapply gone_removed; eauto.
   - reflexivity.
 Qed.
 
